@@ -15,7 +15,8 @@
 (* explore() and update the cache.                                          *)
 (***************************************************************************)
 EXTENDS MPT
-CONSTANTS Keys, Vals, MaxLive, MaxMuts, CacheModes, PruneModes, StartAll
+CONSTANTS Keys, Vals, MaxLive, MaxMuts, CacheModes, PruneModes, StartAll,
+          WalkFeatures     \* subset of {"batch", "rewrite"}: further ways of modifying the trie mid-walk
 VARIABLES prune, usecache, contents, fog, cache, met, changed, ever, muts, last, hist
 vars == <<prune, usecache, contents, fog, cache, met, changed, ever, muts, last, hist>>
 
@@ -80,8 +81,32 @@ Mutate(k, v) ==
   /\ Log([a |-> "mutate", k |-> k, v |-> JV(v)])
   /\ UNCHANGED <<prune, usecache, fog, cache, met>>
 
+\* the trie is modified by a squash_changes batch of two operations, committed or left by an
+\* exception (then nothing changes: neither the contents nor anything the walker can see)
+BatchMutate(k1, v1, k2, v2, commit) ==
+  /\ "batch" \in WalkFeatures /\ muts < MaxMuts /\ fog # {}
+  /\ LET c1 == [contents EXCEPT ![k1] = v1]
+         c2 == [c1 EXCEPT ![k2] = v2]
+         touched == {k \in {k1, k2} : c2[k] # contents[k]}
+     IN /\ Cardinality(Live(c1)) <= MaxLive /\ Cardinality(Live(c2)) <= MaxLive
+        /\ contents' = IF commit THEN c2 ELSE contents
+        /\ changed' = IF commit THEN changed \cup touched ELSE changed
+        /\ ever' = IF commit THEN ever \cup {<<k, c2[k]>> : k \in {x \in touched : c2[x] # NoVal}} ELSE ever
+  /\ muts' = muts + 1
+  /\ Log([a |-> "batch", k1 |-> k1, v1 |-> JV(v1), k2 |-> k2, v2 |-> JV(v2), commit |-> commit])
+  /\ UNCHANGED <<prune, usecache, fog, cache, met>>
+\* a key is written again with the value it already has (nothing changes for the walker)
+Rewrite(k) ==
+  /\ "rewrite" \in WalkFeatures /\ muts < MaxMuts /\ fog # {} /\ contents[k] # NoVal
+  /\ muts' = muts + 1
+  /\ Log([a |-> "mutate", k |-> k, v |-> JV(contents[k])])
+  /\ UNCHANGED <<prune, usecache, contents, fog, cache, met, changed, ever>>
+
 Next == \/ \E p \in fog : Step(p)
         \/ \E k \in Keys : \E v \in Vals \cup {NoVal} : Mutate(k, v)
+        \/ ("batch" \in WalkFeatures /\ \E k1 \in Keys : \E k2 \in Keys : \E v1 \in Vals \cup {NoVal} :
+               \E v2 \in Vals \cup {NoVal} : \E c \in BOOLEAN : BatchMutate(k1, v1, k2, v2, c))
+        \/ ("rewrite" \in WalkFeatures /\ \E k \in Keys : Rewrite(k))
 Spec == Init /\ [][Next]_vars
 \* NodeIterator.nodes(): always the left-most unexplored prefix, cache on, no mutation
 LeftMost == CHOOSE p \in fog : \A q \in fog : p = q \/ SeqLess(p, q)
